@@ -74,6 +74,11 @@ func lrun(args []string) int {
 		return 2
 	}
 	ctx := context.Background()
+	// the codec singleton is initialised lazily and without synchronisation: do it before going parallel
+	if _, err := world.Codec("cbor"); err != nil {
+		fmt.Fprintln(os.Stderr, "harness:", err)
+		return 2
+	}
 	maxW := 1
 	for _, w := range cfg.Writer0 {
 		if w > maxW {
